@@ -185,6 +185,10 @@ func gallinaAll() string {
 	b.WriteString(coqFiles("pulsar_files", p.Files))
 	b.WriteString(coqFiles("gogo_deps", g.Deps))
 	b.WriteString(coqFiles("pulsar_deps", p.Deps))
+	gg, pg := grpcDescs()
+	b.WriteString("(** the grpc.ServiceDesc values of the generated Go code (service name, .proto file named in the\n    metadata, methods: name, request type the handler decodes, client/server streaming) *)\n")
+	b.WriteString(coqGSvcs("gogo_grpc", orderLike(gg, g.Files)))
+	b.WriteString(coqGSvcs("pulsar_grpc", orderLike(pg, p.Files)))
 	b.WriteString("(** type URLs registered as sdk.Msg (cosmos.base.v1beta1.Msg) implementations *)\n")
 	b.WriteString("Definition registered_msgs : list string := " + coqList(mapStr(registeredMsgs(), func(s string) string { return "\n  " + coqStr(s) }), ";") + ".\n\n")
 	var all, scoped []string
